@@ -371,7 +371,7 @@ def act_import_all(a):
                             except Exception:
                                 unresolved.append({"module": name, "line": node.lineno, "what": f"from {'.' * node.level}{node.module or ''} import {al.name}"})
                 except BaseException as ex:
-                    unresolved.append({"module": name, "line": node.lineno, "what": f"from {'.' * node.level}{node.module or ''} import ...: {type(ex).__name__}: {str(ex)[:100]}"})
+                    unresolved.append({"module": name, "line": node.lineno, "names": [al.name for al in node.names], "what": f"from {'.' * node.level}{node.module or ''} import {', '.join(al.name for al in node.names)}: {type(ex).__name__}: {str(ex)[:100]}"})
         # every global name loaded by any function body must exist in module globals or builtins
         g = vars(m)
 
